@@ -64,6 +64,7 @@ FILE_NAMES = [
     '## High Risk', '## Low Risk', 'é.sol', '日本語.sol', 'x - y: z.sol', ':', '::', 'a:', ':9', 'a:-3', ' ', '',
     'dir/sub/C.sol', 'tab\there.sol', 'a.sol ', '-', '- ', '-  :1', 'Z.sol', 'z.sol', 'A.sol', 'aa.sol', 'a.sol.sol',
     '# Gas Optimizations - (Total Optimizations 7)', '💥.sol', 'a\rb.sol', '0', '12', '-5', 'a:+1', 'a:1 ', 'a: 1',
+    'Vault{line}.sol', '{file}.sol', '{}.sol', '{0}:{1}', '%s.sol', '%d', '{line}', '$1.sol', '\\1.sol',
 ]
 BIG = [0, 1, 2, 9, 10, 11, 99, 100, 101, 999, 1000, 65535, 65536, 99999, 100000, 2 ** 31 - 1, 2 ** 31 - 2, 123456789,
        1000000007, -1, -2, -10, -2 ** 31, -2 ** 31 + 1]
@@ -199,6 +200,26 @@ def standard_cases(rng, n_opt_random, n_all, reps=1):
             maps[cat] = gen_map(rng, cat, rng.sample(variants(cat), k), maxfiles=3)
         cases.append(mk_case('all', maps, 'all:random'))
     return cases
+
+
+def big_cases(rng):
+    """very many entries: more than 100 files under one pattern, a thousand and more entries in one category"""
+    out = []
+    vs = variants('opt')
+    vv = variants('vul')
+    for nfiles in (100, 101, 150):
+        files = [['F%03d.sol' % i, sorted(rng.sample(range(1, 500), rng.randint(1, 3)))] for i in range(nfiles)]
+        rng.shuffle(files)
+        out.append(mk_case('opt', {'opt': [[vs[nfiles % len(vs)], files]]}, 'opt:many-files'))
+    for total in (999, 1000, 1005, 1234, 2050):
+        per = 5
+        files = [['G%04d.sol' % i, list(range(10 * i + 1, 10 * i + 1 + per))] for i in range(total // per)]
+        rest = total - per * (total // per)
+        if rest:
+            files.append(['Rest.sol', list(range(1, rest + 1))])
+        out.append(mk_case('opt', {'opt': [[vs[total % len(vs)], files]]}, 'opt:many-entries'))
+        out.append(mk_case('vul', {'vul': [[vv[total % len(vv)], files]]}, 'vul:many-entries'))
+    return out
 
 
 def corpus_cases(prop):
